@@ -673,9 +673,13 @@ class StaticResource(PrefixResource):
         try:
             if file_path.is_dir():
                 if self._show_index:
+                    # A file name that is not valid UTF-8 (surrogate escapes)
+                    # must not make the whole listing fail.
+                    listing = self._directory_as_html(index_path)
                     return Response(
-                        text=self._directory_as_html(index_path),
+                        body=listing.encode("utf-8", "replace"),
                         content_type="text/html",
+                        charset="utf-8",
                     )
                 else:
                     raise HTTPForbidden()
